@@ -231,6 +231,20 @@ def run_string_main(prov, how):
     mm = metamodel_from_str("Model: imports*=Import items*=Item; Import: 'import' importURI=STRING; Item: 'i' name=ID ('r' ref=[Item])?;")
     kw = {"search_path": [d]} if how == "search-path" else {}
     mm.register_scope_providers({"*.*": getattr(P, prov)(**kw)})
+    if how == "empty-text-with-file-name":
+        # the text given is what is loaded, also when it is empty and a file of that name exists (or does not exist)
+        obs = {"provider": prov, "main": "empty string with file_name"}
+        bad = []
+        try:
+            want = mm.model_from_str("")
+            for fn in ("lib.m", "nosuch.m"):
+                got = mm.model_from_str("", file_name=os.path.join(d, fn))
+                if got != want or hasattr(got, "items"):
+                    bad.append(("empty text with file_name=" + fn, repr(got)[:60]))
+        except Exception as e:
+            bad.append(("exception", "%s: %s" % (type(e).__name__, str(e).replace(d, "<dir>")[:120])))
+        obs["failures"] = bad
+        return not bad, obs
     uri = "lib.m" if how == "search-path" else os.path.join(d, "lib.m")
     obs = {"provider": prov, "import_written_as": how, "main": "string"}
     bad = []
@@ -358,7 +372,7 @@ def run(ctx):
     import itertools
 
     gl = [(o, gr) for o in itertools.permutations(range(len(GLOB_FILES))) for gr in (False, True)]
-    gl += [(prov, how) for prov in ("PlainNameImportURI", "FQNImportURI") for how in ("absolute", "search-path")]
+    gl += [(prov, how) for prov in ("PlainNameImportURI", "FQNImportURI") for how in ("absolute", "search-path", "empty-text-with-file-name")]
     gl += [("nested:" + w, gr) for w in ("scope-provider", "model-processor", "match-processor") for gr in (False, True)]
     ctx.pmap(work_glob, [gl[i:i + 8] for i in range(0, len(gl), 8)])
     ctx.states = ctx.evaluations
